@@ -32,6 +32,31 @@ CHECKS = {
                 ref='3 C07', note=CORE_NOTE),
 }
 
+MT_NOTE = ('Trusted: the syscall shim\'s quiescence detection (every thread blocked in a kernel wait that a zero-time-out re-poll confirmed empty after the last '
+           'running thread stopped; joiners inherit the place of the thread they join; signal handlers count as running), gcc ASan/UBSan, the schedule '
+           'perturbation (random yields/sleeps at every wrapped lock, kick and wait). Finite set of schedules; evidence counts distinct interleaving signatures.')
+
+CHECKS.update({
+    'C08': dict(cat='exploration', tech='obligation monitor (post call -> later handler entry in the owner) evaluated at detected quiescence; count and thread checks at every handler entry; schedule perturbation',
+                text='Posters x owner loops x several events run free under perturbation on 5 transport variants; at detected quiescence every event with a post later than its last handler entry is a lost post (reported with the thread state instead of hanging); handler entries never exceed posts begun and always run in the owner.',
+                ref='3 C08', note=MT_NOTE),
+    'C09': dict(cat='exploration', tech='obligation monitor at detected quiescence; O_NONBLOCK check of every post write(2); eventfd2 / old eventfd / pipe back-ends by fault plan',
+                text='Posts from threads, from a signal handler, from handlers and from a forked child, plus bursts of 70000 posts, on 7 (poll method x back-end) variants; a post without a later handler run at quiescence is a violation; every write(2) of a post must hit a non-blocking descriptor.',
+                ref='3 C09', note=MT_NOTE),
+    'C12': dict(cat='exploration', tech='per-item exactly-once / thread-identity / concurrency monitor + all-items-complete obligation at detected quiescence; virtual 10 s idle time-out',
+                text='Bursts, continuations, submissions from completions and NULL-pool items under virtual time (idle time-outs expire between bursts, several delays exactly at 10 s); every work/completion call is checked (once, right thread, after work, <= max_threads at once) and at quiescence no submitted item may be incomplete.',
+                ref='3 C12', note=MT_NOTE),
+    'C13': dict(cat='exploration', tech='start/stop hook pairing, pthread_create/join accounting per creator, owner iv_main return check, pool struct freed under ASan right after iv_work_pool_put',
+                text='iv_work_pool_put at random points (idle, busy, starting workers; from a completion; no worker ever started) with the pool struct freed at once; items submitted before the put must complete, hooks must pair, every created thread must be joined before its creator\'s iv_main returns; iv_thread children of four exit styles.',
+                ref='3 C13', note=MT_NOTE),
+    'C15': dict(cat='fault_enumeration', tech='fault plans at the wrapped system-call boundary (EINTR at every k-th wait, ENOSYS/EPERM of each optional call from the 1st / k-th call) x 4 poll methods; schedule-independent summary comparison + all C01-C09 monitors armed',
+                text='Self-contained scenario programs are run fault-free on the default method and again under every method, odd exclusion list and fault plan; their schedule-independent summaries must be equal. Random callback programs and the cross-thread scenarios run under the same plans with the monitors of C01-C09 armed; a violation seen only under a plan is a C15 violation. Each injection must be seen firing to count.',
+                ref='3 C15', note='Trusted: the fault injector in lib/vt.c (faults at the libc call boundary, not inside the kernel), the summary definition in harness/sum.c, plus the trusted bases of C01-C09.'),
+    'C16': dict(cat='exploration', tech='full structural walk + reference sorted set after every operation; exhaustive enumeration of all AVL shapes of height <= 5 x all single operations',
+                text='Exhaustive for every AVL shape up to height 5 and every insert gap, duplicate insert and node deletion (coverage.exhaustive=true for that part); random shapes of height 6-7 and long random histories in addition. Each operation is followed by a complete check of links, heights, balance, order, both traversals and min/max.',
+                ref='3 C16', note='Trusted: the validator and the shape builder in harness/avl.c (the builder is itself validated on every shape), gcc ASan/UBSan. The comparator is a strict total order on distinct integer keys.'),
+})
+
 NOT_YET = {
 }
 
